@@ -19,7 +19,7 @@ CHECKS = {
  'C08': dict(level='exploration', engine='E2 catalogue + reference models',
    technique='runtime reference-model monitor: real blocks simulated under exhaustive truth-table enumeration, outputs judged by independent truth-table references',
    text='Every gate/selector/comparator block is executed in the real simulator over all arities/widths/constants of the grid, exhaustively over inputs when the total '
-        'input width is <= 12/14 bits; outputs compared with truth-table references; same hostile constructions as C07 (reused caller lists, shared input wires, late drivers), result wires wider than the flag. Held = no disagreement on what was enumerated.',
+        'input width is <= 12/14 bits; outputs compared with truth-table references; same hostile constructions as C07 (reused caller lists, shared input wires, late drivers), result wires wider than the flag. Held = no disagreement on what was enumerated. Also: control wires wider than one bit (reference = documented LSB-only behaviour where documented).',
    note='Trusted: the truth-table references in vlib/catalog.py and the documented-domain readings listed under assumptions.',
    ref='DESIGN.md section 4 C08'),
  'C09': dict(level='exploration', engine='E2 sequential catalogue (vlib/seqcat.py) + reference state machines',
@@ -33,13 +33,13 @@ CHECKS = {
    technique='runtime twin/reference monitor: gated and ungated copies of sequential blocks stepped under generated enable sequences, frozen-state and reference-step oracles per edge',
    text='Generated designs place catalogue sequential blocks under clock drivers with enables (poked, external register, self-gating, GatedClock output; 1-3 domains, drivers at depth 1-3, multi-bit '
         'enables). Per edge: if the enable read 0 every wire and state attribute of the domain is unchanged, otherwise it equals the reference step; other domains follow their own references; the '
-        'leaf-to-driver assignment is checked against the plan. Evidence counts edges with enable 0 and non-zero per enable kind.',
+        'leaf-to-driver assignment is checked against the plan. Evidence counts edges with enable 0 and non-zero per enable kind. Also: chains of 2-3 derived drivers (base=) with independent enables, every block judged against its own driver\'s enable only, all enable combinations reached.',
    note='Trusted: reference machines of vlib/seqcat.py; nested domains follow their own nearest driver only.',
    ref='DESIGN.md section 4 C10'),
  'C15': dict(level='exploration', engine='harness probe clockables + WaveDrom decoder',
    technique='invariant-at-hook monitor: probe clockables before and after the Waveform record pre-edge wire values each cycle; recorder contents and decoded WaveDrom rendering must equal the probe log',
    text='Generated recordings (widths 1-64, forced repeats, duplicates, port/wire aliases, clear(), zero cycles, split clk calls) are observed by harness probes that run in the clocking phase; '
-        'Waveform.getDict() and the decoded get_wavedrom() output must equal the probe log sample for sample.',
+        'Waveform.getDict() and the decoded get_wavedrom() output must equal the probe log sample for sample. Also: clock drivers sharing a name with the system driver or with each other, and recorders inside gated domains.',
    note='Trusted: the probe clockables see the same pre-edge values as the recorder (checked: probes placed before and after must agree, else inconclusive); the WaveDrom decoder written here.',
    ref='DESIGN.md section 4 C15'),
  'C16': dict(level='exploration', engine='schedule generator + shadow models',
@@ -51,35 +51,35 @@ CHECKS = {
  'C17': dict(level='exploration', engine='history monitor at the ready/valid boundaries + software 8N1 receiver',
    technique='offline history checker (accepted vs delivered byte sequences, bounded progress) plus an independent software 8N1 receiver over the recorded line trace',
    text='Serializer -> line -> clock recovery + deserializer, as wired in the HIL wrapper, driven with all 256 byte values and random sequences, producer gaps none/1/random, oblivious receiver pacing, '
-        'divider ratios 4..40 incl. odd and non-integer requests. Delivered sequence must equal accepted sequence within 16 bit periods per byte; a software receiver sampling mid-bit at the realised bit '
-        'period must recover the same bytes from the tx trace.',
+        'divider ratios 4..64 incl. odd and non-integer requests. Delivered sequence must equal accepted sequence within 16 bit periods per byte; a software receiver sampling mid-bit at the realised bit '
+        'period must recover the same bytes from the tx trace. Also: large ratios 2**k-2..2**k+2 up to 2**11 (2**13 thorough) and real baud pairs up to 5208 (10416) clocks per bit with a few bytes each, and one long-lived link kept alive past 2**16+2**12 uart ticks (2**17 thorough).',
    note='Trusted: the software receiver; receiver pacing within what the unchanged link tolerates (stalls up to 11 bit periods - 2 clocks, take-cycle swept up to the last legal cycle); liveness restated as bounded progress.',
    ref='DESIGN.md section 4 C17'),
  'C20': dict(level='exploration', engine='command stream generator + per-cycle trace oracle',
    technique='offline trace checker over recorded strobe/handshake traces of generated command streams and response runs',
    text='CMDRequest is fed generated command streams (I/value/O/K commands, 1-8 hex digits, random valid gaps, several wire widths); from per-cycle traces each strobe must pulse exactly once per command '
         'with the transmitted number, K n; must give exactly n clock pulses, no other strobe may move. CMDResponse must emit "=", the value as the requested count of upper-case hex digits MSB first, "!" '
-        'under oblivious consumer pacing, within a progress bound.',
+        'under oblivious consumer pacing, within a progress bound. Also: one pause of 2**k+16 cycles (k up to 17 quick, 20 thorough) at every position inside and between commands and before every response character.',
    note='Trusted: the trace oracle; a strobe pulse is one contiguous high run inside the command window; CMDResponse size is a nibble count.',
    ref='DESIGN.md section 4 C20'),
  'C02': dict(level='translation_validation', engine='E4 verilog interpreter + program generator (vlib/c02.py)',
    technique='translation validation by lockstep co-execution of generated behavioural classes: Python method in the real simulator vs. transpiled always-block module in the /verif interpreter, with a domain filter',
    text='Library behavioural classes and classes generated from a grammar over the supported subset (plus the same grammar with one unsupported or suspect construct injected) are '
         'transpiled by the real generator; each accepted program is validated individually by co-executing the Python method and the emitted module for 32-64 cycles, comparing outputs and integer state '
-        'after every step that stays inside the domain of the statement. Refusals are acceptable; accepted text must be valid and equivalent.',
+        'after every step that stays inside the domain of the statement. Refusals are acceptable; accepted text must be valid and equivalent. A 58-construct corpus (every match pattern kind, statement and expression form; subject steered to listed and unlisted values) is either refused or co-simulated, and every accepted text must assign each declared integer it reads.',
    note='Trusted: E4 semantics incl. the unbounded-integer shadow evaluation used as domain filter; programs are real .py files (inspect.getsource); after an out-of-domain step the Verilog state is re-synchronised to the Python state.',
    ref='DESIGN.md section 4 C02'),
  'C03': dict(level='exploration', engine='E4 parser + elaborator + well-formedness checker',
    technique='offline checker over recorded generator output: every emitted text is parsed, resolved and elaborated by an independent front end; interchangeability judged from the live objects sharing a module name',
    text='Every text emitted for the unit, sequential, random-composition, naming-stress, optional-port-reuse, system-block and transpiled-corpus workloads is parsed, resolved and elaborated: identifiers declared '
         'exactly once and not reserved, instantiated modules defined once with matching ports/widths/directions, one driver of the right kind per net; objects that share a module name must have '
-        'identical interfaces and bodies.',
+        'identical interfaces and bodies. Also: one text per IEEE 1364-2005 keyword (own list of 124) and naming position, and designs built through edit histories of the netlist API (Interface add/remove/re-add, reconnectIn, disconnect).',
    note='Trusted: the E4 front end; leniencies: bit-select [0] of a scalar, widths of unsized literals, memories written from two always blocks (dual-port RAM template), never-instantiated modules.',
    ref='DESIGN.md section 4 C03'),
  'C12': dict(level='exploration', engine='reference oracles: struct, fractions.Fraction, integers',
    technique='runtime reference-model monitor: helper functions called on exhaustive half-precision patterns and boundary/random single/double patterns, results judged bit-exactly by struct/Fraction references',
    text='All 2**16 half patterns exhaustively, boundary x boundary + random single/double patterns, two\'s complement exhaustive for small widths, FPNum arithmetic compared as exact rationals, FixedPoint helper on '
-        'all small formats exhaustively.',
+        'all small formats exhaustively. Also: object lives of FPNum (in-place mutators x observers; every answer compared with a fresh object of the same components).',
    note='Trusted: struct/Fraction references; NaN payloads excepted as stated.',
    ref='DESIGN.md section 4 C12'),
  'C13': dict(level='exploration', engine='exact rational references for the five single-precision blocks',
@@ -90,48 +90,48 @@ CHECKS = {
    ref='DESIGN.md section 4 C13'),
  'C14': dict(level='exploration', engine='exact scaled-integer references',
    technique='runtime reference-model monitor: fixed-point blocks simulated exhaustively over all operand pairs of small formats and boundary/random pairs of wide formats, judged with Fraction arithmetic',
-   text='FixedPointAdd/Sub/Mult/Sign/Comparator for every format (1, iw, fw) with iw+fw <= 7 exhaustively over operand pairs, mixed formats, and wide formats on boundary x boundary + random.',
+   text='FixedPointAdd/Sub/Mult/Sign/Comparator for every format (1, iw, fw) with iw+fw <= 7 exhaustively over operand pairs, mixed formats, and wide formats on boundary x boundary + random. Also: operand histories returning to earlier pairs on long-lived instances (a combinational block must answer the same whatever came before).',
    note='Trusted: the Fraction references; product = floor (bit truncation of the two\'s-complement product).',
    ref='DESIGN.md section 4 C14'),
  'C19': dict(level='exploration', engine='call-history generator over live circuits and never-generated twins',
    technique='runtime call-history monitor: deep structural snapshots around every generation call, twin-circuit simulation traces, normalised text comparison across generation requests',
    text='Random histories of generation requests (same/fresh generator, hierarchy/single module/sub-object, createdStructures list, from the object or an ancestor), simulation steps and late structural '
         'additions over 1-3 live circuits: the circuit snapshot must be identical before and after each call, the twin that never saw a generator must simulate identically and give the same text, all texts '
-        'for one (circuit, root) must agree after normalising instance suffixes and declaration order, and a generation that raises must also raise for a fresh copy of the circuit.',
+        'for one (circuit, root) must agree after normalising instance suffixes and declaration order, and a generation that raises must also raise for a fresh copy of the circuit. Also: 2-3 circuits instantiating one generated behavioural class with different constructor constants, generation interleaved and requested in mid-run, each text co-simulated against its own circuit, attribute snapshot (type and value) before/after.',
    note='Trusted: the snapshot covers children, ports, wires (values, sources, sinks), leaf attributes and Wire.prepared; Div/Mod/SignedDiv blocks are excluded (documented random output on zero divisor).',
    ref='DESIGN.md section 4 C19'),
  'C11': dict(level='exploration', engine='construction-plan executor with an independent name/driver model (vlib/c11*.py)',
    technique='runtime reference-model monitor over generated construction sequences with one injected fault (20 fault kinds), plus integrity check over catalogue blocks with single-driver faults',
    text='Generated construction plans (wire creation, instantiation, rename, reparent, interface expansion) are executed on the real library in lockstep with an independent model of names and '
         'drivers; the faulting call must raise and the earlier driver/child/wire must stay in place (compared by identity), fault-free plans must not raise. checkIntegrity is run on every catalogue block '
-        'nested 0-5 levels with all port wires driven (must return) and with exactly one driver removed or one port wire left undriven (must raise); expected verdicts come from the plan.',
+        'nested 0-5 levels with all port wires driven (must return) and with exactly one driver removed or one port wire left undriven (must raise); expected verdicts come from the plan. Also: ports re-added on existing primitives after a disconnect (same and new names) with a global one-driver invariant after every step, and extra ports on the special wires of a system (clock, gated, base, derived, other scope).',
    note='Trusted: the plan model; half-registered newcomers of refused calls, BidirWire drivers, detached ports and InOut ports are outside the statement and not judged.',
    ref='DESIGN.md section 4 C11'),
  'C18': dict(level='exploration', engine='child-process schematic builder + object-graph checker (vlib/c18*.py)',
    technique='offline checker over the recorded object graph of Schematic(obj) built in a child process under a step/time watchdog: symbol multiplicity, rectangle disjointness, per-wire connectivity at pin level',
    text='Every structural catalogue block, the FP/fixed-point and sequential structural blocks and generated netlists (fan-out, register feedback incl. self-loops, long forward edges) are placed and '
         'routed by the real Schematic class in a child process; the resulting objs/nets/symbol_matrix are checked: one symbol per child and port, no overlaps, per wire one connected figure touching the '
-        'driving pin and every reading pin and no pin of another wire. A hang is attributed to its case by a watchdog and is a violation (termination is part of the property).',
+        'driving pin and every reading pin and no pin of another wire. A hang is attributed to its case by a watchdog and is a violation (termination is part of the property). Also: several Schematic objects over one hierarchy in one process (parent/child/redraw/sibling/interleaved; every net must end on a symbol of its own drawing) and n-input symbols at fan-ins 2..300.',
    note='Trusted: the graph checker; wires with zero or several drivers inside the block are excluded; swallowed internal exceptions are counted, the verdict comes from the resulting graph.',
    ref='DESIGN.md section 4 C18'),
  'C04': dict(level='exploration', engine='E1 hooks + E3 netlist generator (vlib/netgen.py)',
    technique='invariant-at-hook monitor (fixpoint re-evaluation of every stateless leaf after construction and every clk), order-permutation twin runs, schedule checked against the plan graph, cyclic-plan rejection',
    text='Generated netlists are built under many permutations of block and wire creation order; after construction and every clock call each stateless leaf is re-evaluated and must leave its '
         'outputs unchanged (fixpoint), all orders must give identical wire values, Simulator.propagatables must be a topological order of the dependency graph recomputed from the plan, and plans with an '
-        'injected combinational cycle (length 1, 2, n, through wrappers) must be refused while loops through a register are accepted.',
+        'injected combinational cycle (length 1, 2, n, through wrappers) must be refused while loops through a register are accepted. Also: groups of 2-4 systems alive in one process with interleaved build/extend/getSimulator/clk schedules.',
    note='Trusted: dependency graph recomputed from the plan; Latch, AsynchronousMemory, BidirBuf, GatedClock and Div/Mod with zero divisor are not stateless and not judged for the fixpoint clause.',
    ref='DESIGN.md section 4 C04'),
  'C05': dict(level='exploration', engine='E1 hooks (event trace) + E3 netlist generator',
    technique='online trace-specification checker over hooked Wire.put/prepare/settle and leaf clock/propagate events, plus schedule-permutation and clk-splitting twin runs',
    text='Per clock cycle the recorded event trace must satisfy: no wire value changes in the clocking phase, every prepare is followed by a settle installing the last prepared value before any '
         'propagate, Wire.prepared empty at cycle end, no settle without prepare. Designs with 2-7 interconnected sequential leaves are run under all/sampled permutations of the clockable lists and driver '
-        'order and under different splittings of clk(n); all must agree. Non-trivial designs are those where an immediate-write twin of Reg would be order dependent.',
+        'order and under different splittings of clk(n); all must agree. Non-trivial designs are those where an immediate-write twin of Reg would be order dependent. Also: Simulator.stop() requested at every position of a clk(n) call and while idle, judged by edges performed per call and by n-vs-singles equality.',
    note='Trusted: the hook wrappers call the real code first and never change its result; leaf state = scalar and list attributes.',
    ref='DESIGN.md section 4 C05'),
  'C06': dict(level='exploration', engine='E1 hooks (post-conditions on every write, icontract layer when importable) + catalogue/netgen workloads',
    technique='invariant-at-hook monitor: range/type post-condition on every Wire.put/prepare/settle event and full wire sweeps after construction, after every edge, inside listeners and inside a clockable probe',
    text='Catalogue blocks at all widths with extreme operands, negative/oversized constants, stimulus and reset values, and random compositions are simulated with hooks on every wire write; every '
-        'reachable wire must hold an integer in [0, 2**width) at every observation point. Non-trivial cases are those where the raw argument of a write was out of range (measured by the hook).',
+        'reachable wire must hold an integer in [0, 2**width) at every observation point. Non-trivial cases are those where the raw argument of a write was out of range (measured by the hook). Also: constant parameters at their boundaries {0,1,w-1,w,2w,3w} crossed with narrower/equal/wider result wires.',
    note='Trusted: the hook wrappers; the write post-condition also requires stored == argument mod 2**width; icontract ensure-conditions are an additional layer, the verdict does not depend on them.',
    ref='DESIGN.md section 4 C06'),
 }
